@@ -944,13 +944,16 @@ func (c *Chunker) splitSectionByParagraphs(section *Section, chunkIndex *int, do
 			addedLen += 2 // "\n\n"
 		}
 
-		// Check if this is an intro paragraph followed by a list
-		if i+1 < len(section.Content) && blocks[i].IsIntro {
+		// Check if this is an intro paragraph followed by a list. The two are
+		// kept together only if they fit into one chunk; otherwise each is
+		// handled on its own below.
+		if i+1 < len(section.Content) && blocks[i].IsIntro &&
+			len(elemText)+2+len(section.Content[i+1].Text) <= c.config.MaxChunkSize {
 			// Keep intro with following list
 			nextElem := section.Content[i+1]
 			totalLen := len(elemText) + 2 + len(nextElem.Text)
 
-			if currentText.Len()+totalLen > c.config.MaxChunkSize && currentText.Len() > 0 {
+			if currentText.Len()+2+totalLen > c.config.MaxChunkSize && currentText.Len() > 0 {
 				flushChunk()
 			}
 
